@@ -88,8 +88,15 @@ def _worker_task(args):
     for item in items:
         try:
             out.append(fn(item))
-        except HarnessError as exc:
-            out.append({'harness_error': str(exc), 'item': repr(item)[:200]})
+        except HarnessError:
+            # a fork that hit its wall limit on an overloaded machine is not
+            # a property of the run: execute the (deterministic) item once
+            # more before reporting a harness error
+            try:
+                out.append(fn(item))
+            except HarnessError as exc:
+                out.append({'harness_error': str(exc),
+                            'item': repr(item)[:200]})
     return out
 
 
